@@ -9,7 +9,7 @@
    decision-variable section the engine served with the valuation of a FRESH model instance put into the served action
    set, and reports the result as [vars_ok]; the checker requires vars_ok = true and served action set = model's. *)
 From Coq Require Import List String Ascii ZArith NArith QArith Bool.
-From Crem Require Import Base.Res Engine.
+From Crem Require Import Base.Res Engine EngineAdmin.
 Import ListNotations.
 Open Scope string_scope.
 Open Scope list_scope.
@@ -28,6 +28,7 @@ Inductive obody :=
 | OSubcatchment (l : list (string * bool))
 | OSolution (id : string) (active : list (Z * list string)) (vars_ok : bool)
             (enc summary : option string) (pfm valid : option bool)
+| OStatus (name version status : string) (* well-formed JSON {ServiceName, Version, Status, Time}, all strings *)
 | OOther (what : string).               (* anything the projection does not recognise *)
 Inductive oresp := OPanic | OResp (status : nat) (ct : ctype) (b : obody).
 
@@ -83,6 +84,7 @@ Definition body_matches (m : rbody CV) (o : obody) : bool :=
   | BActive a, OActive b => amap_eqb a b
   | BApplicable a, OApplicable b => amap_eqb a b
   | BSubcatchment a, OSubcatchment b => list_eqb (fun p q => String.eqb (fst p) (fst q) && Bool.eqb (snd p) (snd q)) a b
+  | BStatus n v st, OStatus on ov ost => String.eqb n on && String.eqb v ov && String.eqb st ost
   | BSolution id bits _ None, OSolution oid act ok _ _ pfm _ =>
       (* the As-Is entry: only its ParetoFrontMember = false is set explicitly *)
       String.eqb id oid && ok && opt_eqb Bool.eqb pfm (Some false)
@@ -187,3 +189,25 @@ Fixpoint conv_mismatches_from (i : nat) (l : list (fval * Z)) : list nat :=
   | (f, id) :: l' => if conv_ok f id then conv_mismatches_from (S i) l' else i :: conv_mismatches_from (S i) l'
   end.
 Definition conv_mismatches := conv_mismatches_from 0.
+
+(* ---------- server-level sequences: API + admin multiplexer ---------- *)
+Record sstep := { ss_req : sreq CV; ss_resp : oresp; ss_signalled : bool }.   (* did the done channel receive a value *)
+Record scase := { sc_name : string; sc_version : string; sc_status : string; sc_steps : list sstep }.
+
+Fixpoint check_ssteps (sv : server CV) (steps : list sstep) (i : nat) : option nat :=
+  match steps with
+  | [] => None
+  | st :: rest =>
+      match server_handle sv (ss_req st) with
+      | Panic => match ss_resp st, rest with OPanic, [] => None | _, _ => Some i end
+      | Ok (r, sv') =>
+          if resp_matches (sv_engine sv) (Ok (r, sv_engine sv')) (ss_resp st)
+             && Bool.eqb (ss_signalled st) (negb (Nat.eqb (sv_shutdowns sv') (sv_shutdowns sv)))
+          then check_ssteps sv' rest (S i) else Some i
+      end
+  end.
+Definition scase_ok (c : scase) : bool :=
+  match check_ssteps (init_server (sc_name c) (sc_version c) (sc_status c)) (sc_steps c) 0 with None => true | Some _ => false end.
+Fixpoint smismatches_from (i : nat) (cs : list scase) : list nat :=
+  match cs with [] => [] | c :: cs' => if scase_ok c then smismatches_from (S i) cs' else i :: smismatches_from (S i) cs' end.
+Definition smismatches := smismatches_from 0.
